@@ -20,7 +20,6 @@ func init() {
 		commonAssume, runC25)
 }
 
-const oSYNC = 0x101000
 
 func runC22(c *Ctx) {
 	p := c.P
